@@ -278,6 +278,21 @@ def runCx (c : Case) : Res :=
             let failing := (J.l3parts.filter (fun p => !p.2)).map (·.1)
             bad := s!"Triangulation::is_valid says {boolTok b}, recomputation of Level 3 (g={g}) says {boolTok J.l3} {failing}" :: bad
         | none => pure ()
+      -- the public PART validators, each against its own model function, on structurally valid
+      -- complexes (Levels 1-2) and in the library's own order: a later part is only compared when
+      -- the earlier ones hold (the library never evaluates it otherwise)
+      if J.l1 && J.l2 then
+        let cmp (n : String) (want : Bool) (what : String) : List String :=
+          match obOk c n with
+          | some b => if b != want then [s!"part validator {what} says {boolTok b}, its model says {boolTok want}"] else []
+          | none => []
+        bad := cmp "p_connected" (connected K) "Tds::is_connected" ++ bad
+        bad := cmp "p_coherent" (coherent K) "Tds::is_coherently_oriented" ++ bad
+        bad := cmp "p_facet_degree" (facetDegOk K) "validate_facet_degree" ++ bad
+        if facetDegOk K then
+          bad := cmp "p_closed_boundary" (closedBoundary K) "validate_closed_boundary" ++ bad
+          if closedBoundary K then
+            bad := cmp "p_ridge_links" (ridgeLinksOk K) "validate_ridge_links" ++ bad
       if !J.orientBand || !(J.l1 && J.l2) then
         match obOk c "tri_validate" with
         | some b => if b != (J.l1 && J.l2 && J.l3c) then
